@@ -218,11 +218,14 @@ func c13R3(c *Ctx, r *Report, x *idxLocks) {
 			if al, ok := strip(fa.X).(*ssa.Alloc); ok && al.Heap {
 				fresh = true // composite literal being initialised
 			}
-			bad := ""
+			bad, blind := "", ""
 			for _, u := range *fa.Referrers() {
 				switch y := u.(type) {
 				case *ssa.Call:
 					if id := callID(&y.Call); id.Pkg == "sync/atomic" && len(y.Call.Args) > 0 && y.Call.Args[0] == ssa.Value(fa) {
+						if fld == x.fEntry && (strings.HasPrefix(id.Name, "Store") || strings.HasPrefix(id.Name, "Swap")) && !x.applyOnly(f) {
+							blind = "atomic." + id.Name + " at " + c.InstrPos(y)
+						}
 						continue
 					}
 					bad = "address passed to " + callID(&y.Call).String()
@@ -239,6 +242,8 @@ func c13R3(c *Ctx, r *Report, x *idxLocks) {
 				}
 			}
 			switch {
+			case bad == "" && blind != "":
+				r.Bad("C13.R3", fnName(f), cons, c.Pos(fa.Pos()), "the entry point is overwritten blindly ("+blind+") in a function that runs concurrently with other writers: two first inserts (or an insert racing a removal) both see the old value and the later store wins — the loser's vertex is stored and counted but unreachable from the entry point, so searches never return it; concurrent writers must publish with compare-and-swap")
 			case bad == "":
 				r.OK("C13.R3", fnName(f), cons, c.Pos(fa.Pos()), "used only through sync/atomic (or initialised in a constructor literal)")
 			case x.applyOnly(f):
